@@ -12,7 +12,7 @@ use proptest::test_runner::{Config, RngAlgorithm, TestRng, TestRunner};
 use serde_json::Value;
 
 use crate::model::real::Tables;
-use crate::props::{c04, c06, c07, c10, c11, c13, c14, c15, c16, c18};
+use crate::props::{c04, c06, c07, c08, c10, c11, c13, c14, c15, c16, c18};
 use crate::{Fail, Probe};
 
 /// The sub-checks that can be driven this way: (key, property, sub-check name used for replay files).
@@ -21,6 +21,7 @@ pub const SUBS: &[(&str, &str, &str, usize)] = &[
     ("c06", "C06", "selections", 4096),
     ("c06L", "C06", "selections_larger_populations", 16384),
     ("c07", "C07", "invariants", 4096),
+    ("c08", "C08", "per_draw_support", 4096),
     ("c10", "C10", "generated_cases", 4096),
     ("c10L", "C10", "generated_cases_long", 16384),
     ("c11", "C11", "mutations", 4096),
@@ -64,6 +65,7 @@ pub fn judge(key: &str, bytes: &[u8]) -> Option<(Fail, Value)> {
         "c06" => cached!(c06::Case, c06::strategy(12), c06::oracle),
         "c06L" => cached!(c06::Case, c06::strategy(90), c06::oracle),
         "c07" => cached!(c07::Case, c07::strategy(40), c07::oracle),
+        "c08" => cached!(c08::DrawCase, c08::draw_strategy(), c08::draw_oracle),
         "c10" => cached!(c10::Case, c10::strategy(40), c10::oracle),
         "c10L" => cached!(c10::Case, c10::strategy(300), c10::oracle),
         "c11" => cached!(c11::Case, c11::strategy(40), c11::oracle),
